@@ -73,7 +73,7 @@ func runWithFaults(w world.World, faults []world.Fault, arena, tag string) (prob
 	failedAt := -1
 	for i, c := range w.Script {
 		before := map[string]int{}
-		for _, k := range []string{"fetch", "versions", "source", "finder-error"} {
+		for _, k := range []string{"fetch", "versions", "versions-empty", "source", "finder-error"} {
 			before[k] = h.Count(k)
 		}
 		res := run.DoCall(ctx, c)
@@ -175,6 +175,10 @@ func checkBundleFaults(c BundleCase) error {
 	for _, k := range []string{"fetch", "versions", "source", "finder-error"} {
 		for n := 1; n <= counts[k]; n++ {
 			singles = append(singles, world.Fault{Kind: k, N: n})
+			if k == "versions" {
+				// the registry answers successfully with an empty list: nothing can be selected
+				singles = append(singles, world.Fault{Kind: "versions-empty", N: n})
+			}
 		}
 	}
 	for i, f := range singles {
@@ -183,7 +187,7 @@ func checkBundleFaults(c BundleCase) error {
 		p, fired, _ := runWithFaults(c.World, []world.Fault{f}, arena, tag)
 		fsx.RemoveAll(filepath.Join(arena, tag))
 		if !fired && p == "" {
-			return fmt.Errorf("harness: fault %v did not fire although the clean run made %d such calls", f, counts[f.Kind])
+			return fmt.Errorf("harness: fault %v did not fire although the clean run made %d such calls", f, counts[strings.TrimSuffix(f.Kind, "-empty")])
 		}
 		if f.N > 1 || i > 0 {
 			ev.NonTrivialKey(fmt.Sprintf("bundle:%x:%s@%d", h, f.Kind, f.N), "fault-after-successful-steps")
@@ -223,7 +227,14 @@ func TestPropBundleFaults(t *testing.T) {
 // ---------------------------------------------------------------------------
 // (d) finder diagnostics reach the caller and the tracer intact
 
-var subDiagnostics = ev.Register("diagnostics", checkDiagnostics)
+// DiagCase: a world and the tracer installed for the build ("full", "none",
+// "partial:<bits>" - bit 9 leaves out the Diagnostics callback).
+type DiagCase struct {
+	World  world.World `json:"world"`
+	Tracer string      `json:"tracer"`
+}
+
+var subDiagnostics = ev.Register("diagnostics", func(c DiagCase) error { return checkDiagnostics(c.World, c.Tracer) })
 
 func validSub(name string) bool {
 	if name == "" {
@@ -264,7 +275,16 @@ func expectDiag(pkg string, d world.Diag) string {
 	return fmt.Sprintf("%s|%s|%s|%s|%s|%s", d.Severity, d.Summary, d.Detail, rng(d.Subject, 1, 5), rng(d.Context, 3, 1), extra)
 }
 
-func checkDiagnostics(w world.World) error {
+func checkDiagnostics(w world.World, tracer string) error {
+	if tracer == "" {
+		tracer = "full"
+	}
+	tracerHears := tracer == "full"
+	if strings.HasPrefix(tracer, "partial:") {
+		var n int
+		fmt.Sscanf(strings.TrimPrefix(tracer, "partial:"), "%d", &n)
+		tracerHears = n&(1<<9) == 0
+	}
 	arena, cleanup := fsx.Scratch("c12d-")
 	defer cleanup()
 	h := world.NewHarness(w, nFinders)
@@ -272,7 +292,7 @@ func checkDiagnostics(w world.World) error {
 	if err != nil {
 		return fmt.Errorf("harness: %v", err)
 	}
-	ctx := h.Context("full")
+	ctx := h.Context(tracer)
 	anyDiag := false
 	poisoned := false
 	for i, c := range w.Script {
@@ -331,7 +351,7 @@ func checkDiagnostics(w world.World) error {
 		if strings.Join(got, "\n") != strings.Join(want, "\n") {
 			return fmt.Errorf("Add call %d: the caller received\n  %s\nbut the finders emitted (file names rewritten into the analysed package)\n  %s", i, strings.Join(got, "\n  "), strings.Join(want, "\n  "))
 		}
-		if strings.Join(traced, "\n") != strings.Join(want, "\n") {
+		if tracerHears && strings.Join(traced, "\n") != strings.Join(want, "\n") {
 			return fmt.Errorf("Add call %d: the tracer received\n  %s\nbut the finders emitted\n  %s", i, strings.Join(traced, "\n  "), strings.Join(want, "\n  "))
 		}
 		if res.Diags.HasErrors() {
@@ -339,7 +359,7 @@ func checkDiagnostics(w world.World) error {
 		}
 	}
 	if anyDiag {
-		ev.NonTrivial(w, "finder-diagnostics")
+		ev.NonTrivial(DiagCase{w, tracer}, "finder-diagnostics")
 	}
 	run.Close()
 	if poisoned {
@@ -355,8 +375,9 @@ func checkDiagnostics(w world.World) error {
 }
 
 func TestPropDiagnostics(t *testing.T) {
-	ev.Check(t, subDiagnostics, func(t *rapid.T) world.World {
+	ev.Check(t, subDiagnostics, func(t *rapid.T) DiagCase {
 		w := world.Gen(t, world.Config{MaxRemotes: 3, MaxRegistry: 1, NFinders: nFinders, Diags: true, ErrorDeps: rapid.Bool().Draw(t, "errors")})
+		tracer := rapid.SampledFrom([]string{"full", "full", "none", "partial:512", "partial:1535", "partial:73"}).Draw(t, "tracer")
 		// keep registry/relative errors out: this sub-check is about finder diagnostics
 		for pi := range w.Remotes {
 			for mi := range w.Remotes[pi].Modules {
@@ -381,7 +402,7 @@ func TestPropDiagnostics(t *testing.T) {
 			script = []world.AddCall{{Kind: "remote", Addr: w.Remotes[0].Addr}}
 		}
 		w.Script = script
-		return w
+		return DiagCase{World: w, Tracer: tracer}
 	})
 }
 
